@@ -90,8 +90,45 @@ theorem C19_cancel_partial (C : Tx.Consts) (s : Tx.St) :
     (flushCancelled s 0).1 = [] ∧ (flushCancelled s 0).2 = s := by
   simp [flushCancelled, writeCancelled]
 
+/-- **Where a send can be abandoned.** The write-all loop suspends only inside a socket write, i.e. while bytes
+    are still owed: at every suspension point strictly fewer bytes than the buffer holds have been taken. There is
+    no suspension point after the last byte (the loop ends and `flush` clears the queue without awaiting in
+    between), so a frame the kernel took in full can never be counted as unsent: "each frame at most once" can only
+    be broken by a *partial* write followed by a drop — the class of the listed finding — never by abandoning a
+    send that had nothing left to write. (A transport that yields after its last write breaks exactly this; the
+    `pollonce` runs on real sockets look for it.) -/
+theorem C19_no_suspension_after_last_byte (accept : Nat → Nat) : ∀ (fuel : Nat) (buf : List Byte) (k done : Nat),
+    ∀ c ∈ cutsBefore accept fuel buf k done, done ≤ c ∧ c < done + buf.length := by
+  intro fuel
+  induction fuel with
+  | zero => intro buf k done c hc; simp [cutsBefore] at hc
+  | succ fuel ih =>
+    intro buf k done c hc
+    unfold cutsBefore at hc
+    by_cases hb : buf = []
+    · simp [hb] at hc
+    · rw [if_neg hb] at hc
+      have hpos : 0 < buf.length := List.length_pos_iff.mpr hb
+      simp only [List.mem_cons] at hc
+      rcases hc with rfl | hc
+      · omega
+      · have := ih _ _ _ c hc
+        simp only [List.length_drop] at this
+        omega
+
+/-- a send abandoned at any of its suspension points has written a proper prefix of the queue: the cut the
+    cancellation theorems range over is never the whole queue -/
+theorem C19_cancel_cut_is_proper (accept : Nat → Nat) (s : Tx.St) (c : Nat)
+    (hc : c ∈ cutsBefore accept s.queued.length s.queued 0 0) :
+    (flushCancelled s c).1.length < s.queued.length ∨ s.queued = [] := by
+  have := (C19_no_suspension_after_last_byte accept _ s.queued 0 0 c hc).2
+  left
+  simp [flushCancelled, writeCancelled]
+  omega
+
 /-! ## Non-vacuity -/
 namespace Example
 example : (writeAll (fun k => k % 2) 5 [1, 2, 3, 4, 5] 0) = [[1], [2, 3], [4], [5]] := by decide
+example : (cutsBefore (fun k => k % 2) 5 [1, 2, 3, 4, 5] 0 0) = [0, 1, 3, 4] := by decide
 end Example
 end C19
